@@ -53,6 +53,7 @@ type Exec struct {
 	liveKey string
 	// hooks
 	OnMakeClosure func(f *Frame, st *State, mc *ssa.MakeClosure, c *Closure)
+	OnFuncValue   func(f *Frame, st *State, v *ssa.Function) // a function literal without captured variables is boxed
 	InlineAll     bool
 	lib           map[string]*libFn
 	strAx         bool
@@ -424,7 +425,7 @@ func (f *Frame) findLoops() {
 		}
 		if f.spec != nil {
 			for _, c := range f.spec.Clauses {
-				if c.Loop == li.ordinal && c.Kind == "invariant" {
+				if (c.Loop == li.ordinal || c.Loop == -1) && c.Kind == "invariant" {
 					li.inv = append(li.inv, c)
 				}
 				if c.Loop == li.ordinal && c.Kind == "decreases" {
